@@ -104,11 +104,25 @@ func Run(run *kernel.Run, p Params) {
 	wantObs := fxObs.Observe()
 	wantRaw := fxObs.ObserveRaw()
 
+	// expected length of the run and the typical length of one operation
+	// (from the per-kind costs): preemption quanta are drawn relative to them,
+	// so that short operations (a 50-step accessor) are cut into pieces as
+	// often as long ones (a 500 000-step batch multiplication)
 	estSteps := uint64(0)
+	var costs []int
 	for _, l := range ops {
-		estSteps += uint64(len(l)) * 15000
+		for _, o := range l {
+			c := opKinds[o.Kind].cost
+			if c <= 0 {
+				c = 10000
+			}
+			estSteps += uint64(c)
+			costs = append(costs, c)
+		}
 	}
-	cfg := kernel.DrawSchedCfg(t, nTasks, estSteps)
+	sort.Ints(costs)
+	typical := costs[len(costs)/2]
+	cfg := kernel.DrawSchedCfg(t, nTasks, estSteps, typical)
 	s := kernel.NewSched(t, cfg, p.NSites)
 	results := make([][]string, nTasks)
 	for ti := 0; ti < nTasks; ti++ {
@@ -207,6 +221,7 @@ func Run(run *kernel.Run, p Params) {
 		for i, o := range ops[ti] {
 			run.Res.Ops++
 			run.Probe("op:" + opKinds[o.Kind].name)
+			run.ProbeN("solo_steps:"+opKinds[o.Kind].name, int(soloOpSteps[ti][i]))
 			run.Hist("task %d op %d %s(a=%d b=%d c=%d) -> %s", ti, i, opKinds[o.Kind].name, o.A, o.B, o.C, results[ti][i])
 		}
 	}
